@@ -267,9 +267,58 @@ func cliC15(c *cliEnv, r *rand.Rand, tw *TraceWriter, label string, maxT int) {
 	}
 }
 
+// the value operations through the commands (brlen clear / scale, support clear, rename -m): the output must be the
+// tree the operational model computes (conformance notes), and a tree (C03)
+func cliValueOps(c *cliEnv, r *rand.Rand, tw *TraceWriter, label string, maxT int) {
+	gp := defaultGen()
+	gp.MinTips, gp.MaxTips = 4, maxT
+	gp.InnerNames = 0.2
+	gp.Comments = 0
+	s := genSTree(r, &gp)
+	bs := func(b bool) string {
+		if b {
+			return "true"
+		}
+		return "false"
+	}
+	in, ex := r.Intn(2) == 0, r.Intn(2) == 0
+	switch r.Intn(4) {
+	case 0:
+		c.editEvent(tw, label, ProjOpt{Enum: true, Text: true}, s.text(), "ClearLengths", map[string]interface{}{"internal": in, "external": ex},
+			[]string{"brlen", "clear", "--internal=" + bs(in), "--external=" + bs(ex)}, nil)
+	case 1:
+		num := []int{1, 2, 4}[r.Intn(3)] // factor num/2
+		c.editEvent(tw, label, ProjOpt{Enum: true, Text: true}, s.text(), "ScaleLengths", map[string]interface{}{"num": num, "internal": in, "external": ex},
+			[]string{"brlen", "scale", "-f", fmtUnits(int64(num) << 19), "--internal=" + bs(in), "--external=" + bs(ex)}, nil)
+	case 2:
+		c.editEvent(tw, label, ProjOpt{Enum: true, Text: true}, s.text(), "ClearSupports", map[string]interface{}{}, []string{"support", "clear"}, nil)
+	default:
+		all := s.tipNames()
+		var from, to []string
+		var sb strings.Builder
+		for i, nm := range all {
+			if r.Intn(2) == 0 {
+				from = append(from, nm)
+				to = append(to, fmt.Sprintf("r%d", i))
+				sb.WriteString(nm + "\t" + fmt.Sprintf("r%d", i) + "\n")
+			}
+		}
+		if len(from) == 0 {
+			from, to = []string{all[0]}, []string{"r0"}
+			sb.WriteString(all[0] + "\tr0\n")
+		}
+		mf := c.file("map.txt", sb.String())
+		c.editEvent(tw, label, ProjOpt{Enum: true, Text: true}, s.text(), "Rename", map[string]interface{}{"from": from, "to": to}, []string{"rename", "-m", mf}, nil)
+	}
+}
+
 func cliEdit(c *cliEnv, r *rand.Rand, tw *TraceWriter, prop, label string, maxT int) {
 	if prop == "C15" {
 		cliC15(c, r, tw, label, maxT)
+		return
+	}
+	if prop == "C03" {
+		cliValueOps(c, r, tw, label, maxT)
 		return
 	}
 	gp := defaultGen()
@@ -961,7 +1010,7 @@ func init() {
 		}
 		defer os.RemoveAll(dir)
 		c := &cliEnv{bin: *bin, dir: dir}
-		edit := map[string]bool{"C05": true, "C06": true, "C07": true, "C17": true, "C15": true}[*prop]
+		edit := map[string]bool{"C05": true, "C06": true, "C07": true, "C17": true, "C15": true, "C03": true}[*prop]
 		var tw *TraceWriter
 		var cw *CalcWriter
 		if edit {
